@@ -11,6 +11,7 @@ ASSUME RoundTrip1 == \A m \in Msgs, mx \in {0, 1, 2, 3}, ipc \in BOOLEAN : Round
 ASSUME RoundTrip2 == \A m1, m2 \in Msgs, mx \in {0, 3}, ipc \in BOOLEAN : RoundTrip(<<m1, m2>>, mx, ipc)
 ASSUME Limit == \A m \in Msgs, ipc \in BOOLEAN : LimitExact(m, ipc)
 ASSUME Strict == \A p \in Protos : HeaderStrict(p)
+ASSUME Table == SPTableOK /\ {SPNumber[n] : n \in SPNames} = Protos
 \* an oversize frame between two good ones: the first is delivered, nothing after it, the connection is dropped
 \* having consumed the first frame and the offending length only
 ASSUME Mixed == \A m1 \in Msgs, ipc \in BOOLEAN :
